@@ -24,6 +24,7 @@ fn chan(id: u16) -> ChanSpec {
         inband_by: None,
         label: format!("c{id}"),
         protocol: String::new(),
+        late_ms: None,
     }
 }
 
@@ -38,6 +39,7 @@ fn background_chan(id: u16, rel: Rel, ordered: bool) -> ChanSpec {
         inband_by: None,
         label: format!("bg{id}"),
         protocol: String::new(),
+        late_ms: None,
     }
 }
 
